@@ -29,7 +29,9 @@ REPO = os.environ.get("PV_REPO", "/repo")
 WORK = os.environ.get("PV_WORK_C19", os.path.join(VERIF, ".work", "c19"))
 PID = "C19"
 PROTOS = [(v, p) for p in ("Local", "Public") for v in (1, 2, 3, 4)]
-TYPE_LEVEL = {"E0308", "E0277", "E0599", "E0271", "E0061", "E0107", "E0282", "E0283", "E0284", "E0631", "E0053"}
+TYPE_LEVEL = {"E0308", "E0277", "E0599", "E0271", "E0061", "E0107", "E0282", "E0283", "E0284", "E0631", "E0053",
+              # field of that name is private / does not exist (programs that try to reach an assertion slot without the setter)
+              "E0616", "E0609", "E0451"}
 
 
 def lab(x):
@@ -260,6 +262,34 @@ def family():
         for n in (16, 48):
             out.append(P("nonce_v%d_from_key%d" % (v, n), "key-construction", prog([
                 "let nb = Key::<%d>::from([3u8; %d]); let _ = PasetoNonce::<V%d, Local>::from(&nb);" % (n, n, v)]), False, "PasetoNonce<V%d, Local> from &Key<%d>" % (v, n)))
+    # ---- raw byte arrays of the WRONG length as key material (no From<&[u8; N]> / From<[u8; N]> path may exist for them)
+    for v in (1, 2, 3, 4):
+        for n in (16, 31, 32, 33, 48, 49, 64, 65):
+            if n != 32:
+                out.append(P("symkey_v%d_from_array%d" % (v, n), "key-construction", prog([
+                    "let _ = PasetoSymmetricKey::<V%d, Local>::from(&[1u8; %d]);" % (v, n)]), False, "PasetoSymmetricKey<V%d, Local> from &[u8; %d]" % (v, n)))
+                out.append(P("symkey_v%d_from_owned_array%d" % (v, n), "key-construction", prog([
+                    "let _ = PasetoSymmetricKey::<V%d, Local>::from([1u8; %d]);" % (v, n)]), False, "PasetoSymmetricKey<V%d, Local> from [u8; %d]" % (v, n)))
+            if v == 1:
+                continue
+            if n != (48 if v == 3 else 64):
+                out.append(P("private_key_v%d_from_array%d" % (v, n), "key-construction", prog([
+                    "let _ = PasetoAsymmetricPrivateKey::<V%d, Public>::from(&[1u8; %d]);" % (v, n)]), False, "PasetoAsymmetricPrivateKey<V%d, Public> from &[u8; %d]" % (v, n)))
+            if n != (49 if v == 3 else 32):
+                out.append(P("public_key_v%d_from_array%d" % (v, n), "key-construction", prog([
+                    "let _ = PasetoAsymmetricPublicKey::<V%d, Public>::%s(&[2u8; %d]);" % (v, "try_from" if v == 3 else "from", n)]), False, "PasetoAsymmetricPublicKey<V%d, Public> from &[u8; %d]" % (v, n)))
+    # ---- an implicit assertion placed on a v1 / v2 object without the setter (field access, struct update)
+    for v in (1, 2):
+        for purpose in ("Local", "Public"):
+            out.append(P("assertion_field_core_builder_v%d_%s" % (v, purpose.lower()), "assertion", prog([
+                "let mut b = Paseto::<V%d, %s>::builder();" % (v, purpose),
+                "b.implicit_assertion = Some(ImplicitAssertion::from(\"ctx\"));", "let _ = b;"]), False,
+                "field assignment of an implicit assertion on Paseto<V%d, %s>" % (v, purpose)))
+            for ty in ("GenericBuilder", "PasetoBuilder", "GenericParser", "PasetoParser"):
+                out.append(P("assertion_field_%s_v%d_%s" % (ty.lower(), v, purpose.lower()), "assertion", prog([
+                    "let mut b = %s::<V%d, %s>::default();" % (ty, v, purpose),
+                    "b.implicit_assertion = ImplicitAssertion::from(\"ctx\");", "let _ = b;"]), False,
+                    "field assignment of an implicit assertion on %s<V%d, %s>" % (ty, v, purpose)))
     seen = set()
     for p in out:
         assert p.ident not in seen, p.ident
